@@ -18,6 +18,15 @@ theorem primFieldReader_suffix (env : Env) (m : FieldMeta) (flex opt : Bool) :
     · intro bs v r h; contradiction
     · exact PrimR.run_suffix env _
 
+theorem primFieldReaderT_suffix (env : Env) (m : FieldMeta) (flex o tagged : Bool) :
+    SuffixDec (primFieldReaderT env m flex o tagged) := by
+  unfold primFieldReaderT
+  split
+  · intro bs v r h; contradiction
+  · split
+    · intro bs v r h; contradiction
+    · exact PrimR.run_suffix env _
+
 mutual
 theorem Schema.read_suffixDec (env : Env) : (s : Schema) → SuffixDec (s.read env)
   | .mk _ flex rh fs => by
@@ -75,7 +84,7 @@ theorem Field.read_suffixDec (env : Env) (flex rh tagged : Bool) :
 theorem Shape.read_suffixDec (env : Env) (flex tagged : Bool) (m : FieldMeta) :
     (sh : Shape) → SuffixDec (Shape.read env flex tagged m sh)
   | .prim _ o => by
-    simp only [Shape.read]; exact primFieldReader_suffix _ _ _ _
+    simp only [Shape.read]; exact primFieldReaderT_suffix _ _ _ _ _
   | .primArr _ e a => by
     simp only [Shape.read]; exact arrayReader_suffix _ (primFieldReader_suffix _ _ _ _)
   | .ent s o => by
@@ -107,6 +116,26 @@ theorem primFieldReader_allowed (env : Env) (m : FieldMeta) (flex opt : Bool) (k
       rintro rfl
       cases flex <;> cases opt <;> simp [getReader] at hg
     cases k <;> first | exact absurd rfl hne | (simp only [hg]; exact PrimR.run_allowed env r)
+
+/-- the reader of a primitive (non-array) field: the same, with the flag `readerOptional` -/
+theorem primFieldReaderT_allowed (env : Env) (m : FieldMeta) (flex o tagged : Bool) (k : KType)
+    (hk : m.kafkaType = some k)
+    (hr : (getReader k flex (readerOptional env k flex o tagged)).toOption.isSome = true) :
+    AllowedDec (primFieldReaderT env m flex o tagged) := by
+  have h := primFieldReader_allowed env m flex (readerOptional env k flex o tagged) k hk hr
+  have hne : k ≠ .notStr := by
+    rintro rfl
+    revert hr
+    cases flex <;> cases (readerOptional env .notStr _ o tagged) <;>
+      simp [getReader, Except.toOption]
+  have hs : m.schemaFieldType = .ok k := by
+    unfold FieldMeta.schemaFieldType
+    rw [hk]
+    cases k <;> first | exact absurd rfl hne | rfl
+  unfold primFieldReader at h
+  unfold primFieldReaderT
+  rw [hs] at h ⊢
+  exact h
 
 theorem tagNat_some {m : FieldMeta} {sh : Shape} {t : Nat} (h : (Field.mk m sh).tagNat = some t) :
     m.tag.isSome = true := by
@@ -208,7 +237,7 @@ theorem Shape.read_allowedDec (env : Env) (hskip : env.skipUnknownTags = true)
     · rename_i k hk
       simp only [Bool.and_eq_true] at hwf
       subst ht
-      exact primFieldReader_allowed env m flex _ k hk hwf.1.2
+      exact primFieldReaderT_allowed env m flex o _ k hk hwf.1.2
     · contradiction
   | .primArr l e a => by
     intro hwf ht
